@@ -28,9 +28,11 @@ BOUNDS = {
   "thorough": "k<=1 on all trees x both patterns, k=2 (all options) on all trees (pattern alternating), k=3 (core) cycling trees; 7 dedicated scenes x 4 variants",
 }
 ASSUMPTIONS = [
-  "certificate O1: r_i = max(|g_i| - 32*eps32*(sum of magnitudes of the terms added into g_i), 0) is the part of the float64 gradient that float32 rounding cannot explain; pass if ||r||/(meaninertia*nv) <= K*tol or r'M^-1 r/2/(meaninertia*nv) <= K*tol + 64*eps32*(sum of |cost terms|)/(meaninertia*nv) (the solver's own two stopping quantities; it measures improvement as a difference of float32 costs), K=20, tol = the tolerance MJWarp uses (max(opt.tolerance,1e-6))",
-  "if the ITERATIONS overflow bit is set the certificate is replaced by cost(qacc) <= cost(qacc of MuJoCo) + K*tol/scale",
-  "O2 allows 2e-3*(1+max|qacc_ref|) + sqrt(2*K*tol/scale*(M^-1)_ii) per dof (what a K*tol-suboptimal point may deviate by strong convexity) and is applied only where MuJoCo's rows have the same count as MJWarp's, MuJoCo raised no warning and MuJoCo's own qacc passes the certificate on MuJoCo's own problem",
+  "certificate O1, stage 1: r_i = max(|g_i| - 32*eps32*(sum of magnitudes of the terms added into g_i), 0) is the part of the float64 gradient that float32 rounding cannot explain; pass if ||r||/(meaninertia*nv) <= K*tol or r'M^-1 r/2/(meaninertia*nv) <= K*tol (the solver's own two stopping quantities), K=20, tol = the tolerance MJWarp uses (max(opt.tolerance,1e-6))",
+  "certificate O1, stage 2 (only if stage 1 does not pass): an independent float64 damped-Newton minimisation of the same cost (mc/refs/cost.py:refine) gives q*; required cost(qacc)-cost(q*) <= K*tol/scale + 8*eps32*(sum of |cost terms|): the solver measures improvement as a difference of float32 costs and cannot resolve less (measured max on the unchanged tree: 2.6 eps32)",
+  "CG only: if stage 2 fails but MuJoCo's own CG (float64, tolerance 1e-8) is at least as far from the optimum of its own problem, the world passes (CG stops on per-iteration improvement, which does not bound the remaining gap on ill-conditioned cones); counted in certificate_cg_as_converged_as_mujoco",
+  "if the ITERATIONS overflow bit is set the certificate is replaced by cost(qacc) <= cost(MuJoCo's qacc, same solver and iteration limit) + the same allowance (skipped if MuJoCo assembled a different number of rows)",
+  "O2 allows 2e-3*(1+max|qacc_ref|) + sqrt(2*allowance*(M^-1)_ii) per dof (what a point within the allowed suboptimality may deviate by strong convexity) and is applied only where MuJoCo's rows have the same count as MJWarp's, MuJoCo raised no warning and MuJoCo's own qacc passes the certificate on MuJoCo's own problem",
   "O3: force within 2e-4*(1+max|force|) + 64*eps32*D*(|J||qacc|+|aref|) per row (MJWarp carries J*qacc-aref in float32 through the iterations); states compared only for rows farther than that from a zone boundary",
   "opt.iterations=100 (MuJoCo default), opt.tolerance default 1e-8 (clamped to 1e-6 by put_model); CPU backend",
 ]
@@ -129,7 +131,7 @@ def bad_warmstart(nv, w):
 # ------------------------------------------------------------------------------------------- checks
 
 
-def check_world(c, pre, mjm, m, d, w, overflow, mjd, tagkey):
+def check_world(c, pre, mjm, m, d, w, overflow, mjd, tagkey, mjd_any=None):
   """O1/O3 (+O2 if mjd usable) for one world. Returns (active, info)."""
   nefc, rows = util.efc_dense(m, d, w)
   P = cost.problem_from_mjw(mjm, m, d, w, rows=rows)
@@ -140,33 +142,48 @@ def check_world(c, pre, mjm, m, d, w, overflow, mjd, tagkey):
   ev = P.certificate(qacc)
   tol = P.tolerance
   iter_bit = bool(overflow[w] & OVERFLOW_ITER)
-  # part of the gradient that float32 rounding of the summed terms (32 eps per term, component-wise) cannot explain
+  # stage 1 (cheap, rigorous): the part of the gradient that float32 rounding of the summed terms (32 eps per term,
+  # component-wise) cannot explain must be below the solver's own stopping thresholds (gradient, or the strong-convexity
+  # bound on the remaining improvement)
   Gx, Sx = P.certificate_excess(ev, 32 * EPS32)
-  ok_grad = Gx <= K * tol
-  # the solver measures improvement as a difference of float32 costs, so it cannot see (and stops on) improvements below a
-  # few eps32 * (sum of |cost terms|); measured on the unchanged tree: suboptimality <= 48 eps32 * cost magnitude
-  cmag = abs(ev["gauss"]) + float(np.sum(np.abs(P.rows(ev["jar"])[2]))) if nefc else abs(ev["gauss"])
-  s_allow = K * tol + 64 * EPS32 * P.scale() * cmag
-  ok_sub = Sx <= s_allow
-  if not (ok_grad or ok_sub):
-    if iter_bit and mjd is not None:
-      Pm = cost.problem_from_mj(mjm, mjd)
-      if Pm.nefc == P.nefc:
-        cm = P.evaluate(mjd.qacc)["cost"]
-        c.true(
-          f"{pre}cost vs MuJoCo (iteration limit hit)",
-          ev["cost"] <= cm + K * tol / P.scale() + 1e-6 * abs(cm),
-          f"cost {ev['cost']:.9g} > cost at MuJoCo's qacc {cm:.9g}",
-          vkey=f"certificate_itercap:{tagkey}",
+  # allowed true suboptimality (unscaled): K*tol/scale plus the float32 resolution of the cost itself -- the solver measures
+  # improvement as a difference of float32 costs.  Measured on the unchanged tree: gap <= 2.6 eps32 * sum|cost terms|.
+  cmag = abs(ev["gauss"]) + (float(np.sum(np.abs(P.rows(ev["jar"])[2]))) if nefc else 0.0)
+  allow = K * tol / P.scale() + 8 * EPS32 * cmag
+  gap = 0.0
+  if not (Gx <= K * tol or Sx <= K * tol):
+    # stage 2: independent float64 minimisation of the same problem; cost(qacc) - cost(q*) is a lower bound of the true gap
+    qstar, cstar, slack = cost.refine(P, qacc)
+    gap = ev["cost"] - cstar
+    if gap > allow:
+      if iter_bit:
+        PATHS["itercap"] += 1
+        if mjd_any is not None and mjd_any.nefc == nefc:
+          cm = P.evaluate(mjd_any.qacc)["cost"]
+          c.true(
+            f"{pre}cost vs MuJoCo (iteration limit hit)",
+            ev["cost"] <= cm + allow,
+            f"iteration limit hit (niter {int(d.solver_niter.numpy()[w])}): cost {ev['cost']:.9g} > cost at MuJoCo's qacc {cm:.9g} (same solver, same limit); optimum {cstar:.9g}",
+            vkey=f"certificate_itercap:{tagkey}",
+          )
+      elif tagkey.startswith("cg:") and mjd_any is not None and _mj_gap(mjm, mjd_any) >= gap:
+        # CG stops on per-iteration improvement; on ill-conditioned cones that is not a bound on the remaining gap.  MuJoCo's
+        # own CG (same algorithm and stopping rule, float64, stricter tolerance) is no closer to its optimum here, so the
+        # property's "to within the solver tolerance" cannot mean more than this for CG.
+        PATHS["cg_as_converged_as_mujoco"] += 1
+      else:
+        dq = qacc - qstar
+        c.fail(
+          f"certificate:{tagkey}",
+          f"{pre}qacc is not the optimum of MJWarp's own problem: cost {ev['cost']:.9g} vs float64 optimum {cstar:.9g} (gap {gap:.3g}, allowed {allow:.3g} = "
+          f"{K:g}*tol/scale + 8 eps32*{cmag:.3g}); scaled gradient {ev['gradient']:.3g}; max|qacc-q*| {np.max(np.abs(dq)):.3g} at dof {int(np.argmax(np.abs(dq)))}; "
+          f"niter {int(d.solver_niter.numpy()[w])}, nefc {nefc}",
         )
     else:
-      c.fail(
-        f"certificate:{tagkey}",
-        f"{pre}qacc is not the optimum of MJWarp's own problem: scaled gradient {ev['gradient']:.3g} (beyond float32 rounding: {Gx:.3g}), "
-        f"scaled suboptimality bound {ev['subopt']:.3g} (beyond rounding: {Sx:.3g}), allowed {K * tol:.3g} resp. {s_allow:.3g}; ||qacc-opt||_M <= {ev['dist_M']:.3g}, "
-        f"niter {int(d.solver_niter.numpy()[w])}, nefc {nefc}",
-      )
+      PATHS["stage2"] += 1
+      c.nchecked += 1
   else:
+    PATHS["stage1"] += 1
     c.nchecked += 1
   # O3: forces implied by qacc
   if nefc:
@@ -203,17 +220,27 @@ def check_world(c, pre, mjm, m, d, w, overflow, mjd, tagkey):
   c.close(f"{pre}qfrc_constraint = J'force", qfc, want, "f32dyn", scale=1 + float(np.max(mag, initial=0.0)), vkey=f"qfrc_constraint:{tagkey}")
   # O2
   if mjd is not None:
-    # class solver plus what the solver tolerance itself allows: a point whose scaled suboptimality is <= K*tol lies within
-    # ||dq||_M <= sqrt(2 K tol / scale) of the optimum, i.e. |dq_i| <= that * sqrt((M^-1)_ii)
+    # class solver plus what the allowed suboptimality itself permits: a point whose cost is within `allow` of the minimum
+    # lies within ||dq||_M <= sqrt(2 allow) of the optimum (strong convexity), i.e. |dq_i| <= sqrt(2 allow (M^-1)_ii)
     Minv = np.linalg.inv(P.M)
-    allow = 2e-3 * (1 + np.max(np.abs(mjd.qacc))) + np.sqrt(2 * K * tol / P.scale() * np.maximum(np.diag(Minv), 0.0))
+    qallow = 2e-3 * (1 + np.max(np.abs(mjd.qacc))) + np.sqrt(2 * allow * np.maximum(np.diag(Minv), 0.0))
     err = np.abs(qacc - np.asarray(mjd.qacc))
     c.nchecked += 1
-    if np.any(err > allow):
-      i = int(np.argmax(err / allow))
-      c.fail(f"qacc_vs_mujoco:{tagkey}", f"{pre}qacc[{i}]={qacc[i]:.7g} vs mj_forward {mjd.qacc[i]:.7g} (allowed {allow[i]:.3g})")
+    if np.any(err > qallow):
+      i = int(np.argmax(err / qallow))
+      c.fail(f"qacc_vs_mujoco:{tagkey}", f"{pre}qacc[{i}]={qacc[i]:.7g} vs mj_forward {mjd.qacc[i]:.7g} (allowed {qallow[i]:.3g})")
   active = nefc > 0 and np.any(rows["force"] != 0) and np.max(np.abs(qacc - P.qacc_smooth)) > 1e-6
-  return bool(active), dict(G=Gx, S=Sx)
+  return bool(active), dict(G=Gx, S=gap / max(allow, 1e-300))
+
+
+PATHS = {"stage1": 0, "stage2": 0, "cg_as_converged_as_mujoco": 0, "itercap": 0}
+
+
+def _mj_gap(mjm, mjd):
+  """cost(MuJoCo's qacc) - float64 optimum, on MuJoCo's own problem."""
+  Pm = cost.problem_from_mj(mjm, mjd)
+  _, cstar, _ = cost.refine(Pm, mjd.qacc)
+  return Pm.evaluate(mjd.qacc)["cost"] - cstar
 
 
 def reference(mjm, states, eq_off):
@@ -244,6 +271,8 @@ def execute(scn):
     return dict(ok=True, nontrivial=False, outcome="rejected_by_compiler", info=info)
   c = util.Cmp()
   states = info["states"]
+  for k in PATHS:
+    PATHS[k] = 0
   nactive = nconfig = nref = 0
   worstG = worstS = 0.0
   base_flags = int(mjm.opt.disableflags)
@@ -283,7 +312,7 @@ def execute(scn):
             mjd, okref = refs[w]
             usable = okref and int(d.nefc.numpy()[w]) == mjd.nefc and not (overflow[w] & OVERFLOW_ITER)
             nref += usable
-            act, inf = check_world(c, pre, mjm, m, d, w, overflow, mjd if usable else None, tagkey)
+            act, inf = check_world(c, pre, mjm, m, d, w, overflow, mjd if usable else None, tagkey, mjd_any=mjd if okref else None)
             nactive += act
             worstG, worstS = max(worstG, inf.get("G", 0.0)), max(worstS, inf.get("S", 0.0))
   mjm.opt.disableflags = base_flags
@@ -291,5 +320,5 @@ def execute(scn):
     nontrivial=nactive > 0,
     key=util.sha(scn),
     info=dict(nv=int(mjm.nv), active_worlds=nactive, configs=nconfig, worstG=float(f"{worstG:.3g}"), worstS=float(f"{worstS:.3g}"), checked=c.nchecked),
-    counts=dict(extra_evaluations=nconfig * 3, compared_to_mujoco=nref),
+    counts=dict(extra_evaluations=nconfig * 3, compared_to_mujoco=nref, **{"certificate_" + k: v for k, v in PATHS.items()}),
   )
